@@ -58,4 +58,20 @@ def equiv (lt : α → α → Bool) (v x : α) : Bool := !lt x v && !lt v x
 def binarySearch (lt : α → α → Bool) (xs : List α) (v : α) : Option Nat :=
   if xs.countP (equiv lt v) = 1 then xs.findIdx? (equiv lt v) else none
 
+/-- the answers of a state-passing `update_action` when it is offered the elements once each, in order, every call
+    seeing the state its predecessor left: `(remove?, …)` per element and the final state -/
+def decisions (action : α → σ → Bool × σ) : List α → σ → List Bool × σ
+  | [], s => ([], s)
+  | x :: xs, s =>
+    let r := action x s
+    let rest := decisions action xs r.2
+    (r.1 :: rest.1, rest.2)
+
+/-- the elements whose answer was "keep" -/
+def kept (xs : List α) (ds : List Bool) : List α := ((xs.zip ds).filter (fun p => !p.2)).map (·.1)
+
+/-- a source range after an operation that reads every element by value: untouched if it was passed as an lvalue,
+    every element moved-from if it was passed as an rvalue -/
+def consumed (rv : Bool) (moved : α) (xs : List α) : List α := if rv then xs.map (fun _ => moved) else xs
+
 end Fcppt.C16.Spec
